@@ -377,11 +377,35 @@ def run(ctx):
                                                                 'src/zck_read_header.c'))
         # ---- e
 
+        from ..rules.common import nowrap_sums, covered_by
+
         class Off(SymRule):
+            track_fields = ('comp_length',)
+
             def __init__(s, prog, fn):
                 SymRule.__init__(s, prog, fn)
                 s.starts = []
                 s.advs = []
+                s.wraps = []
+
+            def on_edge(s, c2, node, label, refined, ts):
+                if c2.fn is not s.fn:
+                    return ts
+                op, l, r = atom_cmp(node.e, label)
+                for tot in nowrap_sums(op, s.value(l, ts), s.value(r, ts)):
+                    ts = ts | frozenset([('nowrap', tot)])
+                return ts
+
+            def on_assign(s, c2, lhs, rhs, op, value, ts):
+                # the accumulator's value *before* the advance is what the guard spoke about
+                if c2.fn is s.fn and strip(lhs).k == 'var' and op == '+=' and rhs is not None:
+                    cur, add = s.value(lhs, ts), s.value(rhs, ts)
+                    if cur is not None and add is not None and pstr(rhs).endswith('->comp_length'):
+                        facts = [x[1] for x in ts if isinstance(x, tuple) and len(x) == 2 and x[0] == 'nowrap']
+                        tot = cur + add
+                        if not covered_by(Lin(tot.t, 0), facts):
+                            s.wraps.append((c2.node, tot))
+                return SymRule.on_assign(s, c2, lhs, rhs, op, value, ts)
 
             def sym_assign(s, c2, lhs, rhs, op, ts):
                 if last_field(lhs) == 'start' and op == '=':
@@ -402,6 +426,13 @@ def run(ctx):
                   accv, ', '.join(sorted(set(a[1] for a in adv)))) if ok_start and ok_adv else
               'chunk start offsets are not the running sum of stored sizes: start := %s, accumulator advanced by %s' % (
                   sorted(acc), sorted(set(a[1] for a in adv))), ir.file, o.starts[0][2].line, config=config)
+        ck.ob('C13-e', 'R4.offsets', ir.name, 'running-sum-representable', not o.wraps,
+              'the running sum of stored sizes is advanced only where an edge proves the sum representable '
+              '(size <= MAX - sum)' if not o.wraps else
+              'the accumulator of the chunk offsets is advanced by a 64-bit size from the file (%r) without a test that '
+              'the sum is representable: sizes that add up to 2^64 or more wrap, and chunks are reported (and read) at '
+              'offsets that are not the sum of the stored sizes' % (o.wraps[0][1],), ir.file,
+              o.wraps[0][0].line if o.wraps else ir.line, config=config)
         # ---- f
         cf = prog.need_func('check_flags')
         gf = prog.need_func('get_flags')
@@ -432,7 +463,7 @@ def run(ctx):
 CLAIM = {
     'technique': 'table extraction and comparison (getter return forms; reader / writer / specification field '
                  'sequences), guard typestate for the count equality, linear offsets, interval interpretation of the '
-                 'flag word, narrowed-operand lint over every comparison of the parsers',
+                 'flag word, narrowed-operand lint over every comparison of the parsers, representable-sum facts for the offset accumulator',
     'text': 'static analysis: decides C13-a..f (mechanism) - every metadata getter returns the field it names; reader, '
             'writer and the transcribed specification agree on the ordered field sequence of lead, preface, index and '
             'signatures; a successful index parse has compared its entry count with the file\'s; chunk starts are the '
@@ -442,6 +473,10 @@ CLAIM = {
 }
 
 MUTANTS = [
+    {'id': 'm13w', 'desc': 'running sum of stored sizes advanced without the overflow test (pre-fix form)',
+     'file': 'src/lib/index/index_read.c',
+     'old': 'if(chunk_length > (size_t)SSIZE_MAX - zck->header_size - idx_loc) {', 'new': 'if(chunk_length > (size_t)SSIZE_MAX) {',
+     'expect': 'R4.offsets index_read [running-sum-representable]'},
     {'id': 'm13g', 'desc': 'count gate compares after narrowing to int (seeded c13r4)', 'file': 'src/lib/index/index_read.c',
      'old': 'if((size_t)count != index_count) {', 'new': 'if(count != (int)index_count) {',
      'expect': 'R9.narrow-compare index_read'},
